@@ -123,6 +123,40 @@ GEN_TIES = {
         "ties": ["Tables", "StateTie", "BuilderTie"],
         "what": "the builder model's commands no longer equal the GCodeBuilder methods translated from gscrib/gcode_builder.py",
     },
+    "motion": {
+        "props": {"C01", "C03", "C05", "C07", "C11", "C20"},
+        "gen": "gen_motion.py", "gen_file": "GscribModel/Gen/MotionSrc.lean", "tie": "MotionTie",
+        "gens": [("gen_code_table.py", "GscribModel/Gen/CodeTable.lean"), ("gen_state.py", "GscribModel/Gen/StateSrc.lean"),
+                 ("gen_point.py", "GscribModel/Gen/PointSrc.lean"), ("gen_builder.py", "GscribModel/Gen/BuilderSrc.lean"),
+                 ("gen_motion.py", "GscribModel/Gen/MotionSrc.lean")],
+        "ties": ["Tables", "StateTie", "PointTie", "BuilderTie", "MotionTie"],
+        "what": "the builder model's motion commands no longer equal the GCodeBuilder/GCodeCore methods translated from "
+                "gscrib/gcode_builder.py and gscrib/gcode_core.py",
+    },
+    "socket": {
+        "props": {"C17"},
+        "gen": "gen_socket.py", "gen_file": "GscribModel/Gen/SocketSrc.lean", "tie": "SocketTie", "validate": "harness.tie_socket",
+        "what": "the socket model no longer equals Device._readline_buf/_readline_socket translated from gscrib/printrun/device.py",
+    },
+    "report": {
+        "props": {"C18"},
+        "gen": "gen_report.py", "gen_file": "GscribModel/Gen/ReportSrc.lean", "tie": "ReportTie", "validate": "harness.tie_report",
+        "what": "the report model no longer equals the PrintrunWriter methods translated from gscrib/writers/printrun_writer.py",
+    },
+    "bounds": {
+        "props": {"C03", "C05"},
+        "gen": "gen_bounds.py", "gen_file": "GscribModel/Gen/BoundsSrc.lean", "tie": "BoundsTie", "validate": "harness.tie_bounds",
+        "gens": [("gen_point.py", "GscribModel/Gen/PointSrc.lean"), ("gen_bounds.py", "GscribModel/Gen/BoundsSrc.lean")],
+        "ties": ["PointTie", "BoundsTie"],
+        "what": "the bounds table of the builder model no longer equals BoundManager translated from gscrib/geometry/bounds.py",
+    },
+    "hook": {
+        "props": {"C20"},
+        "gen": "gen_hook.py", "gen_file": "GscribModel/Gen/HookSrc.lean", "tie": "HookTie", "validate": "harness.tie_hook",
+        "gens": [("gen_state.py", "GscribModel/Gen/StateSrc.lean"), ("gen_hook.py", "GscribModel/Gen/HookSrc.lean")],
+        "ties": ["StateTie", "HookTie"],
+        "what": "the model's extrusion hook no longer equals extrusion_hook translated from gscrib/hooks/extrusion_hook.py",
+    },
     "state": {
         "props": {"C02", "C03", "C05", "C06", "C07"},
         "gen": "gen_state.py", "gen_file": "GscribModel/Gen/StateSrc.lean", "tie": "StateTie", "validate": "harness.tie_state",
